@@ -303,6 +303,8 @@ void HttpMessage::readBody()
 		}
 		byte buffer[RECV_BLOCK_SIZE];
 		int maxToRead = _socket->available(), bytesRead = 0;
+		if (!chunked && maxToRead <= 0) // readable but empty: the peer has closed; the read below notices it
+			maxToRead = 1;
 		if (chunked)
 		{
 			String chunkSize = _socket->readLine();
